@@ -71,6 +71,41 @@ NEWCHAR = FnSpec(post=[
          then=['state_post == 1', 'line.len_post == 0', 'line.cursor_post == 0', 'crc_post == 255',
                'line.cap_post == line.cap'])
     for s_ in (0, 1, 2, 4)
+] + [
+    # Resynchronisation when the markers COINCIDE (START == STOP == M, e.g. gstuff_context_v0).  The configurations are
+    # idle (0/4), fresh (1, empty line, CRC 0xff), mid (1, len >= 1) and esc (2).  The clauses below give, for the marker:
+    #   idle -> fresh, fresh -> fresh, esc -> fresh, mid -> idle;  and for any other byte: idle -> idle.
+    # A well-formed frame is M, a non-empty marker-free body (at least the CRC byte), M.  Whatever configuration the garbage
+    # left, the opening M of the first frame therefore gives fresh (the frame is then processed as by a fresh receiver and
+    # delivered) or idle; from idle the body is discarded, the closing M gives fresh, the opening M of the SECOND frame
+    # keeps fresh, and the second frame is delivered: "from the second at the latest".  The step fresh -> fresh is the
+    # one that matters: a receiver that treats a marker on an empty line as a stop reports a CRC error, goes idle, and is
+    # out of phase for every following frame.
+    dict(name='resync-same:marker-when-idle-gives-the-fresh-in-frame-configuration',
+         when=['state == 0', 'c == ctx.GSTUFF_START', 'ctx.GSTUFF_START == ctx.GSTUFF_STOP'],
+         then=['state_post == 1', 'line.len_post == 0', 'line.cursor_post == 0', 'crc_post == 255']),
+    dict(name='resync-same:marker-when-idle(4)-gives-the-fresh-in-frame-configuration',
+         when=['state == 4', 'c == ctx.GSTUFF_START', 'ctx.GSTUFF_START == ctx.GSTUFF_STOP'],
+         then=['state_post == 1', 'line.len_post == 0', 'line.cursor_post == 0', 'crc_post == 255']),
+    dict(name='resync-same:marker-on-an-empty-line-keeps-the-fresh-in-frame-configuration',
+         when=['state == 1', 'c == ctx.GSTUFF_START', 'ctx.GSTUFF_START == ctx.GSTUFF_STOP', 'line.len == 0',
+               'line.cursor == 0', 'crc == 255'],
+         then=['ret == 0', 'state_post == 1', 'line.len_post == 0', 'line.cursor_post == 0', 'crc_post == 255']),
+    dict(name='resync-same:marker-after-an-escape-byte-gives-the-fresh-in-frame-configuration',
+         when=['state == 2', 'c == ctx.GSTUFF_START', 'ctx.GSTUFF_START == ctx.GSTUFF_STOP'] + NOT_CODE,
+         then=['state_post == 1', 'line.len_post == 0', 'line.cursor_post == 0', 'crc_post == 255']),
+    dict(name='resync-same:marker-inside-a-frame-ends-it',
+         when=['state == 1', 'c == ctx.GSTUFF_START', 'ctx.GSTUFF_START == ctx.GSTUFF_STOP', 'line.len >= 1'],
+         then=['state_post == 0']),
+    dict(name='resync-same:other-bytes-leave-an-idle-receiver-idle(0)', when=['state == 0', 'c != ctx.GSTUFF_START'],
+         then=['ret == 3', 'state_post == 4']),
+    # the configuration "state 1 with an empty line" is always the fresh one (CRC register 0xff): every step either leaves
+    # state 1, or stores a byte (len_post >= 1), or is one of the reset steps above - the three clauses that complete the
+    # case analysis:
+    dict(name='fresh-inv:a-stored-byte-makes-the-line-non-empty', when=['state == 2', 'ret == 0'],
+         then=['line.len_post >= 1', 'state_post == 1']),
+    dict(name='fresh-inv:in-frame-steps-that-stay-in-frame-store-a-byte-or-are-the-marker',
+         when=['state == 1', 'state_post == 1', 'c != ctx.GSTUFF_START'], then=['line.len_post >= 1']),
 ])
 
 # legacy receiver: constants instead of a context; START doubles as STOP
@@ -94,6 +129,31 @@ NEWCHAR_V1 = FnSpec(pre=['state <= 2'], post=[
          when=['state == 2', 'c != %d' % L_STUB_START, 'c != %d' % L_STUB_STUB], then=['ret == -3', 'state_post == 0']),
     dict(name='data-byte-stored', when=['state == 1', 'line.len < line.cap - 1', 'c != %d' % L_START, 'c != %d' % L_STUB],
          then=['ret == 0', 'state_post == 1', 'ghost_put == c', 'line.len_post == line.len + 1']),
+] + [
+    # Resynchronisation of the legacy receiver (one marker M is start and stop).  M leaves the receiver idle (state 0) or
+    # in frame with an empty line; an idle receiver resets on its next byte and then acts as state 1, so both are the
+    # fresh configuration and every frame that follows an M - i.e. the first frame after the garbage at the latest the
+    # second (when the opening M ended a half-received frame) - is processed as by a fresh receiver:
+    dict(name='resync:marker-inside-a-frame-ends-it', when=['state == 1', 'c == %d' % L_START, 'line.len >= 1'],
+         then=['state_post == 0']),
+    dict(name='resync:marker-after-an-escape-byte-ends-the-frame', when=['state == 2', 'c == %d' % L_START],
+         then=['state_post == 0']),
+    dict(name='resync:marker-on-an-empty-line-keeps-the-fresh-configuration',
+         when=['state == 1', 'c == %d' % L_START, 'line.len == 0', 'crc == 255'],
+         then=['ret == 0', 'state_post == 1', 'line.len_post == 0', 'crc_post == 255']),
+    dict(name='resync:marker-when-idle-gives-the-fresh-configuration', when=['state == 0', 'c == %d' % L_START],
+         then=['ret == 0', 'state_post == 1', 'line.len_post == 0', 'line.cursor_post == 0', 'crc_post == 255']),
+    dict(name='resync:idle-receiver-starts-from-an-empty-line-and-a-fresh-crc(data)',
+         when=['state == 0', 'c != %d' % L_START, 'c != %d' % L_STUB],
+         then=['ret == 0', 'state_post == 1', 'line.len_post == 1', 'ghost_put == c', 'ghost_crcin == 255']),
+    dict(name='resync:idle-receiver-starts-from-an-empty-line-and-a-fresh-crc(stub)',
+         when=['state == 0', 'c == %d' % L_STUB],
+         then=['ret == 0', 'state_post == 2', 'line.len_post == 0', 'line.cursor_post == 0', 'crc_post == 255']),
+    dict(name='resync:every-error-or-delivery-leaves-the-receiver-idle', when=['ret != 0'], then=['state_post == 0']),
+    dict(name='fresh-inv:in-frame-steps-that-stay-in-frame-store-a-byte-or-are-the-marker',
+         when=['state == 1', 'state_post == 1', 'c != %d' % L_START], then=['line.len_post >= 1']),
+    dict(name='fresh-inv:a-stored-byte-makes-the-line-non-empty', when=['state == 2', 'ret == 0'],
+         then=['line.len_post >= 1', 'state_post == 1']),
 ])
 
 
@@ -104,6 +164,12 @@ def put_hook(interp, st, i, callee, args):
         v = args[1]
         if isinstance(v, IntVal):
             st.ghost['put'] = st.force_s(v)
+    if callee and 'igris_strmcrc8' in callee:
+        # remember the CRC register value the update starts from (the update itself is C17's subject)
+        from absval import IntVal
+        v = interp.load(st, args[0], {'k': 'int', 'bits': 8, 'size': 1}, i)
+        if isinstance(v, IntVal):
+            st.ghost['crcin'] = st.force_u(v) if hasattr(st, 'force_u') else st.force_s(v)
     return None
 
 
@@ -156,10 +222,15 @@ def run(rep, repo, tier):
         'a refused byte yields the OVERFLOW status, NEWPACKAGE is returned only with zero CRC residue and strips the '
         'CRC byte, a start marker inside a frame restarts (markers differ), each escape code decodes to its marker, an '
         'invalid escape is an error - for every automaton state, input byte, context alphabet (symbolic marker values) '
-        'and buffer capacity. Resynchronisation for differing markers is decided through the clause "a start marker from any '
-        'state (0, 1, 2, 4) yields one and the same fresh in-frame configuration" (so a well-formed frame after any garbage is '
-        'processed as by a fresh receiver); the case START == STOP ("from the second frame at the latest") and the legacy '
-        'receiver, whose marker doubles as start and stop, are not decided over whole streams.')
+        'and buffer capacity. Resynchronisation is decided by a finite case analysis over the receiver configurations, each '
+        'step of which is a proven clause: for differing markers a start marker from any state (0, 1, 2, 4) yields one and the '
+        'same fresh in-frame configuration (a well-formed frame after any garbage is processed as by a fresh receiver: '
+        'delivered from the first); for START == STOP the marker maps idle, fresh (state 1 with an empty line) and '
+        'after-escape to fresh and mid-frame to idle, other bytes keep idle idle, so the opening marker of the first frame gives '
+        'fresh (delivered) or idle, and then the closing marker gives fresh and the opening marker of the second frame keeps it '
+        '(delivered from the second at the latest); the legacy receiver likewise (marker -> idle or fresh, idle resets on its next '
+        'byte and continues as state 1 with CRC register 0xff).  What is composed in prose and not mechanically: that a frame '
+        'body contains no marker (C04 R-FRAME decides it for the encoders) and the induction over the stream.')
     rep.assumptions += ['receiver state is one of the values the automaton itself stores (0,1,2,4)',
                         'marker alphabet values are arbitrary (symbolic) for the configurable receiver']
     src = repo + '/igris/protocols/gstuff.cpp'
@@ -203,8 +274,8 @@ def run(rep, repo, tier):
                                                  post=[dict(name='ready', then=['line.len_post == 0', 'crc_post == 255', 'line.cap_post == len'])]))
     rep.add_absint('R-RECV1', summarize(it1, run1))
     who_writes(rep, mod1, 'R-WHOWRITES', ['gstuff_autorecv_newchar_v1', 'gstuff_autorecv_reset_v1', 'gstuff_autorecv_setbuf_v1'])
-    rep.floor('R-RECV:post', 40)
+    rep.floor('R-RECV:post', 60)
     rep.floor('R-RECV:bounds', 5)
     rep.floor('R-RECV:invariant', 10)
-    rep.floor('R-RECV1:post', 20)
+    rep.floor('R-RECV1:post', 35)
     rep.floor('R-WHOWRITES', 6)
